@@ -87,9 +87,9 @@ def run(ctx):
     uc = UserCode(prog)
     ctx.rule("R1.provenance", "ProcessorSet::new argument in take/take_all derives from candidates_by_memory_region(), not from all_processors()/candidate_processors() directly", floor=2)
     ctx.rule("R2.no-dead-criterion", "every builder field written by a builder method is read on the call graph of take and of take_all", floor=9)
-    ctx.rule("R3.quota", "take: count compared with the quota limit before selection; take_all: result passed through reduce_processors_until_under_quota; limit clamped >= 1", floor=3)
+    ctx.rule("R3.quota", "take: count compared with the quota limit before selection; take_all: result passed through reduce_processors_until_under_quota and nothing but None returned around it; limit clamped >= 1", floor=4)
     ctx.rule("R4.bounded-accumulation", "loops bounded by `selected.len() < count`: bulk additions sized by the remainder, or single pushes re-tested, or truncation afterwards", floor=2, shape_dependent=True)
-    ctx.rule("R5.exclusion-passes-independent", "filter / where_available_for_current_thread iterate candidate_processors() and read no criterion that can change later", floor=2)
+    ctx.rule("R5.exclusion-passes-independent", "filter / where_available_for_current_thread iterate candidate_processors() and read no criterion that can change later; the thread-availability pass tests every candidate on every path", floor=3)
     ctx.rule("R6.total-grouping", "candidates_by_memory_region merges per region via entry().or_insert_with().push in a loop over all filtered candidates", floor=1)
 
     ctx.rule("R7.pick-removes-picked", "a loop that revisits a candidate list and pushes one randomly picked element per visit removes exactly that element (same pick, by index) from the list", floor=1)
@@ -191,6 +191,23 @@ def run(ctx):
         okp, _ = take_all.must_pass([0], [red[0][0]], [ps[0][0]])
         ok = ok and okp
     ctx.ob("R3.quota", "take_all.result-through-quota-reduction", ok, take_all.loc(), "the set handed to ProcessorSet::new went through reduce_processors_until_under_quota on every path")
+    # every way out of take_all that does not pass the reduction returns a literal None
+    if red:
+        r = take_all.reachable([0], unwind=False, avoid=[red[0][0]])
+        leaks = []
+        for x in sorted(r):
+            blk = take_all.blocks[x]
+            if blk.cleanup:
+                continue
+            for st in blk.stmts:
+                if st["k"] == "assign" and st["place"]["l"] == 0 and not st["place"]["p"]:
+                    if not (st["rv"]["k"] == "aggr" and st["rv"].get("variant") == "None"):
+                        leaks.append(take_all.loc(st["span"]))
+            t = blk.term
+            if t["k"] == "call" and t["dest"]["l"] == 0 and not t["dest"]["p"] and t["callee"].get("method") != "from_residual":
+                leaks.append(f"{callee_key(t['callee']).split('::')[-1]}@{take_all.loc(t['span'])}")
+        ctx.ob("R3.quota", "take_all.no-result-bypasses-the-reduction", not leaks, take_all.loc(),
+               f"results produced on paths that do not pass reduce_processors_until_under_quota (other than None): {leaks or 'none'}")
     rq = prog.one("processor_set_builder::ProcessorSetBuilder::resource_quota_processor_count_limit")
     if rq is None:
         ctx.missing("R3.quota", "resource_quota_processor_count_limit")
@@ -280,6 +297,16 @@ def run(ctx):
         ok = len(it) == 1 and not late
         ctx.ob("R5.exclusion-passes-independent", name, ok, b.loc(),
                f"iterates candidate_processors(): {len(it) == 1}; reads criteria that may still change after this call: {late or 'none'}")
+        # the pass visits every candidate on every path (no short-cut around the membership test)
+        from ..analysis import loop_visits_all
+        nx = [(bb, t) for bb, t in b.calls() if t["callee"].get("method") == "next" and b.in_loop(bb)]
+        if len(nx) == 1:
+            okv, detv = loop_visits_all(b, nx[0][0])
+            okp, _off = b.must_pass([0], [nx[0][0]], b.exits(("return",)))
+            ctx.ob("R5.exclusion-passes-independent", name + ".visits-every-candidate", okv and okp, b.loc(nx[0][1]["span"]),
+                   f"{detv}; every path to return enters the loop: {okp}" + ("" if okp else " - a short-cut returns the builder without testing each candidate"))
+        elif name == "where_available_for_current_thread":
+            ctx.missing("R5.exclusion-passes-independent", "the candidate loop of where_available_for_current_thread")
 
     # ---------------- R6
     ctx.fn(cbm)
